@@ -19,7 +19,7 @@ ops
     lookup <addr>*                 lookups, in this order (addresses may repeat, later passes are not ascending)
     itersyms                       `iter_symbols()` on the map at this point of the lookup sequence
     stored <kind> <hex>            another symbol map over the same text that is offered these bytes as `.symindex`
-                                   (kind: empty | trunc | magic | counts | foreign | foreign-module | foreign-prefix | garbage | padded)
+                                   (kind: empty | trunc | magic | counts | foreign | foreign-module | foreign-prefix | two-module | two-module-sameid | garbage | padded)
     wholesym fresh                 the text as a local `.sym` file under a wholesym `SymbolManager` with a symindex
     wholesym stale <kind> <hex>    cache directory; `stale`: a `.symindex` file with these bytes exists already
 
@@ -522,10 +522,11 @@ def mapLinesOf (impl : List String) (p : String) : List String :=
 
 /-- kinds of damaged `.symindex` files that no reader may accept (empty, a proper prefix of a valid
 index, wrong magic, a table announced beyond the end of the file), and — since fix 3f61c23c — the valid
-index of ANOTHER file whose MODULE line differs from the one of this text (`foreign-module`): the map must
+index of ANOTHER file whose MODULE line differs from the one of this text (`foreign-module`) and — since fix
+d2664d76 — an index whose module info has a second MODULE line stating another debug id (`two-module`): the map must
 behave as if no index had been offered -/
 def mustReject (k : String) : Bool :=
-  k = "empty" || k = "trunc" || k = "magic" || k = "counts" || k = "foreign-module"
+  k = "empty" || k = "trunc" || k = "magic" || k = "counts" || k = "foreign-module" || k = "two-module"
 
 def judge (ops impl : List String) : Bool × String :=
   let c := parseCase ops
